@@ -453,7 +453,7 @@ Fixpoint foffset (shape idx : list N) (mult : N) : N :=
   | d :: sr, i :: ir => i * mult + foffset sr ir (mult * d)
   | _, _ => 0
   end.
-Definition prodN (l : list N) : N := fold_left N.mul l 1.
+Definition prodN (l : list N) : N := fold_right N.mul 1 l.
 
 Definition fortran_to_row_major (shape values : list N) : list N :=
   if (List.length shape <? 2)%nat then values
